@@ -18,6 +18,7 @@ func init() {
 			"(R6) every write of a vesting account's EndTime depends on both the lockup and the vesting schedule (ReadSchedule treats everything as released from EndTime on).",
 		Assumptions: []string{"the cosmos-sdk bank keeper calls LockedCoins on every account debit (subUnlockedCoins)", "Haqq code reaches bank balances only through the bank keeper (C15)"},
 		Declined:    []string{"the inequality balance ≥ locked over all histories", "delegation-tracking arithmetic (TrackDelegation / DelegatedFree)"},
+		Thorough:    wholeProgramBankDebits,
 	})
 }
 
